@@ -1,6 +1,7 @@
 package rules
 
 import (
+	"go/token"
 	"sort"
 	"strings"
 
@@ -81,6 +82,79 @@ func runC10(c *an.Ctx) {
 
 	// ---- writer table
 	var writes []snapWrite
+	locks := an.NewLocks(c.P)
+	// addLine records one written line value. A value that is a parameter of a local closure or helper
+	// which is only ever called directly is followed to the arguments of its call sites; an element of a
+	// local array of lines is followed to the stores that fill the array.
+	var addLine func(fn *ssa.Function, at ssa.Instruction, arg ssa.Value, depth int)
+	addLine = func(fn *ssa.Function, at ssa.Instruction, arg ssa.Value, depth int) {
+		if s, ok := an.ConstString(arg); ok {
+			writes = append(writes, snapWrite{fn: fn, at: at, format: s})
+			return
+		}
+		if sp, ok := an.Strip(arg).(*ssa.Call); ok && an.IsCallTo(sp, "fmt.Sprintf") {
+			f, okF := an.ConstString(sp.Call.Args[0])
+			if !okF {
+				c.Undecided("R1", an.FuncName(fn)+":non-constant-format", at, "snapshot line built from a non-constant format")
+				return
+			}
+			writes = append(writes, snapWrite{fn: fn, at: at, format: f, args: an.VarArgs(&sp.Call)})
+			return
+		}
+		if bo, ok := an.Strip(arg).(*ssa.BinOp); ok && bo.Op == token.ADD && depth < 3 {
+			// constant + constant concatenation (a named marker plus "\n")
+			l, okL := an.ConstString(bo.X)
+			r, okR := an.ConstString(bo.Y)
+			if okL && okR {
+				writes = append(writes, snapWrite{fn: fn, at: at, format: l + r})
+				return
+			}
+		}
+		if par, ok := an.Strip(arg).(*ssa.Parameter); ok && depth < 3 {
+			g := par.Parent()
+			idx := -1
+			for k, q := range g.Params {
+				if q == par {
+					idx = k
+				}
+			}
+			sites := locks.Callers(g)
+			if idx >= 0 && len(sites) > 0 && !locks.Escapes(g) && (g.Parent() != nil || an.Transparent(g)) {
+				for _, site := range sites {
+					a := an.CallOf(site).Args
+					if idx < len(a) {
+						owner := site.Parent()
+						for owner.Parent() != nil {
+							owner = owner.Parent()
+						}
+						addLine(owner, site, a[idx], depth+1)
+					}
+				}
+				return
+			}
+		}
+		if u, ok := an.Strip(arg).(*ssa.UnOp); ok && u.Op == token.MUL && depth < 3 {
+			if ia, ok := u.X.(*ssa.IndexAddr); ok {
+				if al, ok := ia.X.(*ssa.Alloc); ok {
+					n := 0
+					an.Instrs(fn, func(x ssa.Instruction) {
+						st, ok := x.(*ssa.Store)
+						if !ok {
+							return
+						}
+						if sia, ok := st.Addr.(*ssa.IndexAddr); ok && sia.X == ssa.Value(al) {
+							n++
+							addLine(fn, at, st.Val, depth+1)
+						}
+					})
+					if n > 0 {
+						return
+					}
+				}
+			}
+		}
+		c.Undecided("R1", an.FuncName(fn)+":opaque-line", at, "snapshot line is neither a constant nor a constant-format Sprintf: "+an.Path(arg))
+	}
 	for _, fn := range fns {
 		an.Instrs(fn, func(in ssa.Instruction) {
 			if !an.IsCallTo(in, "(*Snapshotter).tryAppend", "bufio.(*Writer).WriteString", "(*Snapshotter).appendLine") {
@@ -89,21 +163,11 @@ func runC10(c *an.Ctx) {
 			if an.FuncName(fn) == "(*Snapshotter).tryAppend" || an.FuncName(fn) == "(*Snapshotter).appendLine" {
 				return // pass-through of the parameter
 			}
-			arg := an.CallOf(in).Args[1]
-			if s, ok := an.ConstString(arg); ok {
-				writes = append(writes, snapWrite{fn: fn, at: in, format: s})
-				return
+			owner := fn
+			for owner.Parent() != nil {
+				owner = owner.Parent()
 			}
-			if sp, ok := an.Strip(arg).(*ssa.Call); ok && an.IsCallTo(sp, "fmt.Sprintf") {
-				f, okF := an.ConstString(sp.Call.Args[0])
-				if !okF {
-					c.Undecided("R1", an.FuncName(fn)+":non-constant-format", in, "snapshot line built from a non-constant format")
-					return
-				}
-				writes = append(writes, snapWrite{fn: fn, at: in, format: f, args: an.VarArgs(&sp.Call)})
-				return
-			}
-			c.Undecided("R1", an.FuncName(fn)+":opaque-line", in, "snapshot line is neither a constant nor a constant-format Sprintf: "+an.Path(arg))
+			addLine(owner, in, an.CallOf(in).Args[1], 0)
 		})
 	}
 	c.Floor("R1", "snapshot line write sites", len(writes), 9)
@@ -233,6 +297,37 @@ func runC10(c *an.Ctx) {
 				base, _ := an.ConstInt(a[1])
 				bits, _ := an.ConstInt(a[2])
 				okP = base == 10 && bits == 64 && strings.HasSuffix(an.Path(a[0]), "#0") && strings.Contains(an.Path(a[0]), quoteC(r.lit))
+			}
+			// or through a helper shared by several branches: the branch hands the remainder to a transparent
+			// helper whose body parses that parameter with ParseUint(p, 10, 64)
+			if !okP {
+				an.Instrs(rp, func(in ssa.Instruction) {
+					call, isCall := in.(*ssa.Call)
+					if !isCall || in.Parent() != rp || !an.Guarded(rp, in, []an.Edge{r.edge}) {
+						return
+					}
+					h := an.StaticCallee(&call.Call)
+					if h == nil || !an.Transparent(h) {
+						return
+					}
+					for k, arg := range call.Call.Args {
+						ap := an.Path(arg)
+						if !strings.HasSuffix(ap, "#0") || !strings.Contains(ap, quoteC(r.lit)) {
+							continue
+						}
+						an.InstrsShallow(h, func(x ssa.Instruction) {
+							if !an.IsCallTo(x, "strconv.ParseUint") {
+								return
+							}
+							pa := an.CallOf(x).Args
+							base, _ := an.ConstInt(pa[1])
+							bits, _ := an.ConstInt(pa[2])
+							if par, isPar := pa[0].(*ssa.Parameter); isPar && k < len(h.Params) && par == h.Params[k] && base == 10 && bits == 64 {
+								okP = true
+							}
+						})
+					}
+				})
 			}
 			c.Add(okP, "R1", key+":parse-%d", w.at, "the %d record is parsed with ParseUint(rest, 10, 64) on the remainder after the prefix", "call arguments")
 			okT := len(w.args) == 1 && strings.HasSuffix(w.args[0].Type().String(), "LamportTime")
